@@ -170,6 +170,34 @@ def gen(rnd, sid, mode=None, features=None, tank_bias=False):
         for _ in range(rnd.choice([1, 2, 3])):
             s["ctl"].append({"kind": "sim", "thr": rnd.choice([0, H, H + 900, 2 * H, 3 * H, 3 * H + 1200]), "rep": 0,
                              "link": rnd.choice(plinks), "val": rnd.choice([0, 0, 1]), "prio": 3})
+    # conditional simple controls: hysteresis pairs on tank levels, junction pressure controls
+    s["cctl"] = []
+    if "level_controls" in f:
+        tanks = [n for n in s["nodes"] if n["type"] == "T"]
+        ctl_links = [l for l in links if l["type"] in ("pipe", "headpump", "powerpump") and not l.get("cv")]
+        for t in tanks:
+            if not ctl_links or rnd.random() < 0.15:
+                continue
+            l = rnd.choice(ctl_links)
+            lo = rgrid(rnd, t["minl"] + 0.5, (t["minl"] + t["maxl"]) / 2, 0.25)
+            hi = rgrid(rnd, (t["minl"] + t["maxl"]) / 2 + 0.25, t["maxl"] - 0.5, 0.25)
+            pr = rnd.choice([3, 3, 2])
+            # fill: open the link when the level is low, close it when high (or the other way round for a drain)
+            a, b = (1, 0) if rnd.random() < 0.7 else (0, 1)
+            s["cctl"].append({"node": t["name"], "attr": "level", "rel": "<", "thr": lo, "link": l["name"], "what": "status", "val": a, "prio": pr})
+            s["cctl"].append({"node": t["name"], "attr": "level", "rel": ">", "thr": hi, "link": l["name"], "what": "status", "val": b, "prio": pr})
+            if rnd.random() < 0.3:      # a second threshold crossed in the same step as the first
+                s["cctl"].append({"node": t["name"], "attr": "level", "rel": ">", "thr": min(hi + 0.25, t["maxl"] - 0.25),
+                                  "link": rnd.choice(ctl_links)["name"], "what": "status", "val": rnd.choice([0, 1]), "prio": rnd.choice([1, 3, 5])})
+        if rnd.random() < 0.5 and ctl_links:
+            j = rnd.choice([n for n in s["nodes"] if n["type"] == "J"])
+            s["cctl"].append({"node": j["name"], "attr": "pressure", "rel": rnd.choice(["<", ">"]), "thr": rgrid(rnd, 10, 60, 2.5),
+                              "link": rnd.choice(ctl_links)["name"], "what": "status", "val": rnd.choice([0, 1]), "prio": rnd.choice([1, 3, 5])})
+        valves = [l for l in links if l["type"] in ("PRV", "PSV", "FCV", "TCV")]
+        if valves and tanks and rnd.random() < 0.5:
+            v = rnd.choice(valves)
+            s["cctl"].append({"node": tanks[0]["name"], "attr": "level", "rel": ">", "thr": rgrid(rnd, tanks[0]["minl"] + 1, tanks[0]["maxl"] - 1, 0.25),
+                              "link": v["name"], "what": "setting", "val": v["setting"] * 0.5, "prio": 3})
     return s
 
 
@@ -203,6 +231,8 @@ def features_of(s):
             f.add("link-into-source")
     if s["ctl"]:
         f.add("time-controls")
+    for c in s.get("cctl", []):
+        f.add("ctl-%s-%s" % (c["attr"], c["what"]))
     if s["PatStart"]:
         f.add("pattern-start")
     if s["DM"] != 1.0:
